@@ -1,6 +1,7 @@
 """C13 — concurrent or nested parses on a shared instance do not interfere."""
 from __future__ import annotations
 
+import collections
 import os
 import sys
 import threading
@@ -528,16 +529,20 @@ def run(ctx):
                 def spy(code, where, fine, _o=orig_event):
                     _o(code, where, fine)
                     if fine and sched.roles.get(threading.get_ident()) == "A":
-                        fine_ks.append(sched.counts.get("A", 0))
+                        fine_ks.append((sched.counts.get("A", 0), code))
                 sched._event = spy
                 try:
                     sched.run([("A", lambda: do_call(md0, *calls[0]))], {}, {})
                 finally:
                     sched._event = orig_event
                 spread = [max(1, int(tb2 * f)) for f in ((0.15, 0.6) if ctx.quick else (0.03, 0.1, 0.25, 0.5, 0.75, 0.9, 0.98))]
-                if ctx.quick and len(fine_ks) > 150:
-                    # long shared-write stretches (first-use compile): every 8th bytecode; short ones (a test-and-set window) completely
-                    fine_ks = fine_ks[(ctx.seed % 8)::8]
+                per_code = collections.Counter(c for _, c in fine_ks)
+                if ctx.quick:
+                    # functions with long shared-write stretches (first-use compile, rule look-ups): every 8th bytecode;
+                    # short ones (a test-and-set window) completely
+                    fine_ks = [k for j, (k, c) in enumerate(fine_ks) if per_code[c] <= 120 or j % 8 == ctx.seed % 8]
+                else:
+                    fine_ks = [k for k, _ in fine_ks]
                 ks = [(k1, k2) for k1 in fine_ks for k2 in spread]
                 for _ in range(60 if ctx.quick else 1500):
                     ks.append((rng.randint(1, ta), rng.randint(1, tb2)))
